@@ -32,6 +32,20 @@ def clone_into(tr, e, st, out, ind):
     tr.assign_place(e[3][0], src, st, out, ind)
 
 
+def src_const(name):
+    """value of `const NAME: u32 = <literal>;` in the source (so that the constant is re-read on every run)"""
+    import re
+    m = re.search(r"const\s+" + name + r"\s*:\s*u32\s*=\s*(\d+)\s*;", ktx_misc.read_src(F))
+    if not m:
+        raise TranslateError(f"const {name} not found")
+    return int(m.group(1))
+
+
+NAT_OPS = {("+", 32): "add32", ("*", 32): "mul32", ("-", 32): "subU", ("+", 64): "add64", ("*", 64): "mul64", ("-", 64): "subU",
+           ("%", 64): "remU", ("%", 32): "remU", ("/", 32): "divU", ("/", 64): "divU"}
+PFIELDS = {("Params", f): ("{0}." + f, "u32") for f in ("segment_length", "lane_length", "lanes", "memory_blocks", "iterations", "parallelism")}
+PFIELDS.update({("BlockPos", f): ("{0}." + f, "u32") for f in ("pass", "lane", "slice", "index")})
+
 KERNELS = [
     MK(file=F, fn="add_and_mul", lean_name="add_and_mul_src", params="(x y : UInt64)", ret_type="UInt64",
        env={"x": ("x", "u64"), "y": ("y", "u64")}, checked_ok="*",
@@ -57,6 +71,12 @@ KERNELS = [
        stmt_methods={"clone_into": clone_into},
        result=lambda tr, st, ret, out, ind: tr.ex(("path", "next_block"), st, None, out, ind).t,
        doc="`fill_block`: returns the new `*next_block` (the two loops are folds of the step functions translated from their bodies)"),
+    MK(file=F, fn="index_alpha", lean_name="index_alpha_src", params="(params : Params) (position : BlockPos) (pseudo_rand : Nat) (same_lane : Bool)",
+       ret_type="Option Nat", mode="natopt", monadic=True, int_ops=NAT_OPS, fields=PFIELDS, panic="none",
+       env={"params": ("params", "Params"), "position": ("position", "BlockPos"), "pseudo_rand": ("pseudo_rand", "u32"), "same_lane": ("same_lane", "bool")},
+       consts=lambda: {"SYNC_POINTS": (src_const("SYNC_POINTS"), "u32")},
+       doc="`index_alpha` (RFC 9106 3.4.2 mapping): u32 arithmetic for the reference area size and the start position, u64 for the "
+           "mapping; `none` = arithmetic-overflow / division-by-zero panic"),
 ]
 HEADER = "import CxVerif.Impl.Argon2\nnamespace Cx.Extracted.KernelsArgon2\nopen Cx Cx.Impl.Argon2\nopen Cx.Spec.Argon2 (Block)\nset_option autoImplicit false\n"
 FOOTER = "end Cx.Extracted.KernelsArgon2\n"
